@@ -245,46 +245,108 @@ def make_da(rows, dim, coords, chosen, unit, cunits, cdtype='float64', ddtype='f
     return da
 
 
-def save_real(da, header, coord, path_mode):
-    """(text written by save_xye, or error kind)"""
+SUFFIXES = ['', '.xye', '.dat', '.txt', '.gz', '.bz2', '.xz']
+TARGETS = ['sio', 'file'] + [f'{k}:{suf}' for k in ('str', 'path') for suf in SUFFIXES]
+
+
+def rand_target(rng):
+    r = rng.random()
+    if r < 0.4:
+        return 'sio'
+    if r < 0.5:
+        return 'file'
+    return rng.choice(TARGETS[2:])
+
+
+def _opener(suffix):
+    import bz2
+    import gzip
+    import lzma
+
+    return {'.gz': gzip.open, '.bz2': bz2.open, '.xz': lzma.open}.get(suffix, open)
+
+
+def _as_target(target, d):
+    """the object handed to save_xye / load_xye for a path-like target"""
+    import pathlib
+
+    kind, suffix = target.split(':')
+    p = os.path.join(d, 'table' + suffix)
+    return (p if kind == 'str' else pathlib.Path(p)), suffix
+
+
+def read_target_text(p, suffix):
+    """the text of a file written by save_xye: decompressed by suffix (as numpy.savetxt compresses by suffix) with
+    Python's gzip / bz2 / lzma, newlines untouched"""
+    with _opener(suffix)(str(p), 'rb') as f:
+        raw = f.read()
+    return raw.decode('utf-8')
+
+
+def write_target_text(p, suffix, text):
+    with _opener(suffix)(str(p), 'wb') as f:
+        f.write(text.encode('utf-8'))
+
+
+def is_path_like(target):
+    """readers that see the file through a text-mode layer with universal newlines"""
+    return target != 'sio'
+
+
+def save_real(da, header, coord, target):
+    """(text written by save_xye, or error kind); target: 'sio' | 'file' | 'str:<suffix>' | 'path:<suffix>'"""
     from scippneutron.io.xye import save_xye
 
+    if isinstance(target, bool):
+        target = 'str:.xye' if target else 'sio'
     kw = {}
     if header is not None:
         kw['header'] = header
     if coord is not None:
         kw['coord'] = coord
     try:
-        if path_mode:
-            with tempfile.TemporaryDirectory() as d:
-                p = os.path.join(d, 'f.xye')
-                save_xye(p, da, **kw)
-                with open(p, encoding='utf-8', newline='') as f:
-                    return f.read()
-        buf = io.StringIO()
-        save_xye(buf, da, **kw)
-        return buf.getvalue()
+        if target == 'sio':
+            buf = io.StringIO()
+            save_xye(buf, da, **kw)
+            return buf.getvalue()
+        with tempfile.TemporaryDirectory() as d:
+            if target == 'file':
+                p = os.path.join(d, 'table.txt')
+                with open(p, 'w', encoding='utf-8') as f:
+                    save_xye(f, da, **kw)
+                return read_target_text(p, '')
+            t, suffix = _as_target(target, d)
+            save_xye(t, da, **kw)
+            return read_target_text(t, suffix)
     except Exception as e:  # noqa: BLE001
         return err_kind(e)
 
 
-def load_real(text, path_mode):
+def load_real(text, target):
     """canonical ('ok', n, xbits, ybits, vbits) or error kind"""
     import numpy as np
     from scippneutron.io.xye import load_xye
 
+    if isinstance(target, bool):
+        target = 'str:.xye' if target else 'sio'
+    kw = dict(dim='x', unit='counts', coord_unit='m')
     try:
         with warnings.catch_warnings():
             warnings.simplefilter('ignore')
             with np.errstate(all='ignore'):
-                if path_mode:
-                    with tempfile.TemporaryDirectory() as d:
-                        p = os.path.join(d, 'f.xye')
-                        with open(p, 'w', encoding='utf-8', newline='') as f:
-                            f.write(text)
-                        r = load_xye(p, dim='x', unit='counts', coord_unit='m')
+                if target == 'sio':
+                    r = load_xye(io.StringIO(text), **kw)
                 else:
-                    r = load_xye(io.StringIO(text), dim='x', unit='counts', coord_unit='m')
+                    with tempfile.TemporaryDirectory() as d:
+                        if target == 'file':
+                            p = os.path.join(d, 'table.txt')
+                            write_target_text(p, '', text)
+                            with open(p, encoding='utf-8') as f:
+                                r = load_xye(f, **kw)
+                        else:
+                            t, suffix = _as_target(target, d)
+                            write_target_text(t, suffix, text)
+                            r = load_xye(t, **kw)
                 if r.variances is None or set(r.coords.keys()) != {'x'}:
                     return 'err:shape'
                 return ('ok', r.sizes['x'], [_b(v) for v in r.coords['x'].values], [_b(v) for v in r.values], [_b(v) for v in r.variances])
@@ -353,9 +415,10 @@ def _corr_files(ctx):
             coord_arg = chosen
         unit = rng.choice(UNIT_POOL)
         cunits = [rng.choice(UNIT_POOL) for _ in names]
-        path_mode = rng.random() < 0.4
+        target = rand_target(rng)
+        path_mode = is_path_like(target)
         cases.append(dict(rows=rows, header=header, names=names, dim=dim, chosen=chosen, coord_arg=coord_arg, unit=unit,
-                          cunits=cunits, path=path_mode, cdtype=cdtype, ddtype=ddtype))
+                          cunits=cunits, path=path_mode, target=target, cdtype=cdtype, ddtype=ddtype))
     import scipp as sc
 
     # generated headers need str(unit): ask the model for them first
@@ -375,35 +438,39 @@ def _corr_files(ctx):
     load_lines, load_cases = [], []
     for c, out in zip(cases, outs):
         da = make_da(c['rows'], c['dim'], c['names'], c['chosen'], c['unit'], c['cunits'], c['cdtype'], c['ddtype'])
-        real = save_real(da, c['header'], c['coord_arg'], c['path'])
+        real = save_real(da, c['header'], c['coord_arg'], c['target'])
+        ctx.count('save:target:' + c['target'])
         ctx.count(f"save:dtype:{c['cdtype']}/{c['ddtype']}")
         model = unthex(out)
         n = len(c['rows'])
         hk = 'generated' if c['header'] is None else ('empty' if c['header'] == '' else ('cr' if '\r' in c['header'] else 'text'))
-        ctx.count(f'save:{"path" if c["path"] else "sio"}:header-{hk}')
+        ctx.count(f'save:{"path-like" if c["path"] else "sio"}:header-{hk}')
         ctx.count('save:rows:' + ('1' if n == 1 else '2-99' if n < 100 else '100-9999' if n < 10000 else '10000'))
-        ident = ('save', c['header'], tuple(c['names']), c['chosen'], c['unit'], tuple(c['cunits']), c['path'], c['cdtype'], c['ddtype'],
+        ident = ('save', c['header'], tuple(c['names']), c['chosen'], c['unit'], tuple(c['cunits']), c['target'], c['cdtype'], c['ddtype'],
                  tuple(bits(v) for r in c['rows'] for v in r))
-        ctx.case(ident, True, sample={'op': 'save', 'rows': n, 'header': c['header'], 'path': c['path'], 'coord_dtype': c['cdtype'], 'data_dtype': c['ddtype'], 'first_line_impl': real.split('\n')[0][:90],
+        ctx.case(ident, True, sample={'op': 'save', 'rows': n, 'header': c['header'], 'target': c['target'], 'coord_dtype': c['cdtype'], 'data_dtype': c['ddtype'], 'first_line_impl': real.split('\n')[0][:90],
                                       'last_line_impl': real.rstrip('\n').split('\n')[-1]})
         if real != model:
             i = next((i for i, (a, b) in enumerate(zip(real, model)) if a != b), min(len(real), len(model)))
-            ctx.disagree({'op': 'save', 'coord_dtype': c['cdtype'], 'data_dtype': c['ddtype'], 'header': c['header'], 'rows': [[bits(v) for v in r] for r in c['rows'][:50]], 'path': c['path'],
+            ctx.disagree({'op': 'save', 'coord_dtype': c['cdtype'], 'data_dtype': c['ddtype'], 'header': c['header'], 'rows': [[bits(v) for v in r] for r in c['rows'][:50]], 'target': c['target'],
                           'coord_arg': c['coord_arg'], 'names': c['names'], 'dim': c['dim']},
                          real[max(0, i - 60):i + 60], model[max(0, i - 60):i + 60], f'text differs at offset {i}')
             continue
         if real.startswith('err:'):
             continue
-        for pm in ((True, False) if n <= 200 else (c['path'],)):
-            load_lines.append(f"c15.load {'p' if pm else 's'} {thex(real)}")
-            load_cases.append((c, real, pm))
-    for (c, text, pm), out in zip(load_cases, ctx.driver(load_lines)):
-        real = load_real(text, pm)
+        tgts = {c['target']}
+        if n <= 200:
+            tgts |= {'sio', rng.choice(TARGETS[1:])}
+        for tg in sorted(tgts):
+            load_lines.append(f"c15.load {'p' if is_path_like(tg) else 's'} {thex(real)}")
+            load_cases.append((c, real, tg))
+    for (c, text, tg), out in zip(load_cases, ctx.driver(load_lines)):
+        real = load_real(text, tg)
         model = parse_model_load(out)
-        ctx.count(f'load:{"path" if pm else "sio"}:' + (real if isinstance(real, str) else 'ok'))
-        ctx.case(('load', text, pm), True)
+        ctx.count(f'load:{tg}:' + (real if isinstance(real, str) else 'ok'))
+        ctx.case(('load', text, tg), True)
         if real != model:
-            ctx.disagree({'op': 'load-saved', 'path': pm, 'text': text[:400], 'header': c['header']},
+            ctx.disagree({'op': 'load-saved', 'target': tg, 'text': text[:400], 'header': c['header']},
                          real if isinstance(real, str) else real[:2], model if isinstance(model, str) else model[:2])
 
 
@@ -484,7 +551,7 @@ def _corr_tables(ctx):
         cases.append((text, pm))
     outs = ctx.driver([f"c15.load {'p' if pm else 's'} {thex(t)}" for t, pm in cases])
     for (text, pm), out in zip(cases, outs):
-        real = load_real(text, pm)
+        real = load_real(text, rng.choice(TARGETS[1:]) if pm else 'sio')
         model = parse_model_load(out)
         ctx.count('table:' + (real if isinstance(real, str) else 'ok'))
         ctx.case(('table', text, pm), True, sample={'op': 'load', 'text': text[:200], 'path': pm, 'impl': real if isinstance(real, str) else list(real[:3])})
@@ -625,23 +692,33 @@ def check_roundtrip(a):
     n = len(rows)
     with tempfile.TemporaryDirectory() as d, warnings.catch_warnings():
         warnings.simplefilter('ignore')
+        tgt = a.get('target') or ('str:.xye' if a.get('path') else 'sio')
+        handle = None
         try:
-            if a['path']:
-                p = os.path.join(d, 'f.xye')
-                save_xye(p, da, **kw)
-                with open(p, encoding='utf-8', newline='') as f:
-                    text = f.read()
-                target = p
-            else:
+            if tgt == 'sio':
                 buf = io.StringIO()
                 save_xye(buf, da, **kw)
                 text = buf.getvalue()
                 buf.seek(0)
                 target = buf
+            elif tgt == 'file':
+                p = os.path.join(d, 'table.txt')
+                with open(p, 'w', encoding='utf-8') as f:
+                    save_xye(f, da, **kw)
+                text = read_target_text(p, '')
+                handle = target = open(p, encoding='utf-8')  # noqa: SIM115
+            else:
+                target, suffix = _as_target(tgt, d)
+                save_xye(target, da, **kw)
+                try:
+                    text = read_target_text(target, suffix)
+                except Exception as e:  # noqa: BLE001
+                    return _blame(a, 'save'), (f'the file {os.path.basename(str(target))!r} written by save_xye cannot be read as '
+                                               f'{suffix or "plain"} text: {type(e).__name__}: {e}')
         except Exception as e:  # noqa: BLE001
-            return 'save', f'save_xye raised {type(e).__name__}: {e}'
+            return _blame(a, 'save'), f'save_xye raised {type(e).__name__}: {e}'
         # header never interferes with the table: the lines that are not comments are the n rows
-        phys = text.replace('\r\n', '\n').replace('\r', '\n').split('\n') if a['path'] else text.split('\n')
+        phys = text.replace('\r\n', '\n').replace('\r', '\n').split('\n') if tgt != 'sio' else text.split('\n')
         table = [ln for ln in phys if ln and not ln.startswith('#')]
         if len(table) != n or any(len(ln.split(' ')) != 3 for ln in table):
             return _blame(a, 'rows'), (f'the file has {len(table)} non-comment lines for {n} rows '
@@ -649,7 +726,10 @@ def check_roundtrip(a):
         try:
             back = load_xye(target, dim=a['dim'], unit=da.unit, coord_unit=da.coords[a['chosen']].unit, coord=a['chosen'])
         except Exception as e:  # noqa: BLE001
-            return _blame(a, 'load'), f'load_xye raised {type(e).__name__}: {e}'
+            return _blame(a, 'load'), f'load_xye({tgt}) raised {type(e).__name__}: {e}'
+        finally:
+            if handle is not None:
+                handle.close()
     if back.sizes != {a['dim']: n}:
         return 'rows', f'{n} rows written, {dict(back.sizes)} read back'
     if set(back.coords.keys()) != {a['chosen']}:
@@ -673,7 +753,17 @@ def check_roundtrip(a):
 
 
 def _blame(a, otherwise):
-    """the header is to blame iff the same table with an empty header round-trips"""
+    """the target is to blame iff the same table and header round-trip through a StringIO; the header is to blame iff the
+    same table with an empty header round-trips"""
+    tgt = a.get('target') or ('str:.xye' if a.get('path') else 'sio')
+    if tgt != 'sio':
+        try:
+            if check_roundtrip(dict(a, target='sio', path=False)) is None:
+                # is it the kind of target, or only what a text-mode reader makes of this header?
+                if a['header'] == '' or check_roundtrip(dict(a, header='')) is not None:
+                    return 'path-target'
+        except Exception:  # noqa: BLE001
+            pass
     if a['header'] == '':
         return otherwise
     try:
@@ -756,7 +846,7 @@ def _oracle_case(rng, n, allow_cr):
         arg = chosen
     cdtype, ddtype = rng.choice(CDTYPES), rng.choice(DDTYPES)
     return {'rows': [[bits(v) for v in r] for r in rand_rows(rng, n, cdtype, ddtype)], 'header': rand_header(rng, allow_cr), 'names': names,
-            'dim': dim, 'chosen': chosen, 'coord_arg': arg, 'path': rng.random() < 0.5, 'cdtype': cdtype, 'ddtype': ddtype}
+            'dim': dim, 'chosen': chosen, 'coord_arg': arg, 'target': (tg := rand_target(rng)), 'path': tg != 'sio', 'cdtype': cdtype, 'ddtype': ddtype}
 
 
 def oracle(ctx, deep):
@@ -769,7 +859,7 @@ def oracle(ctx, deep):
         except Exception as e:  # noqa: BLE001
             r = ('exception', f'{type(e).__name__}: {e}')
         ctx.case(('roundtrip', repr(a)), True)
-        ctx.count('oracle:roundtrip:' + ('path' if a['path'] else 'sio'))
+        ctx.count('oracle:roundtrip:' + a['target'])
         ctx.count(f"oracle:roundtrip:dtype:{a['cdtype']}/{a['ddtype']}")
         if r:
             # minimise: a single row, then the smallest header of the same kind
@@ -778,6 +868,7 @@ def oracle(ctx, deep):
                 cands += [dict(a, rows=a['rows'][:1], header=h) for h in ('a\rb', 'a\r1 2 3')]
             elif a['header']:
                 cands += [dict(a, rows=a['rows'][:1], header=a['header'][:k]) for k in (1, 2, 4, 8)]
+            cands.append(dict(a, rows=a['rows'][:1], header=''))
             for small in cands:
                 try:
                     r2 = check_roundtrip(small)
